@@ -51,6 +51,7 @@ type Opts struct {
 	Defaults  bool
 	MultiKeys bool
 	NonConfig bool // some containers / lists are config false
+	LeafNonConfig bool // some leaves (not keys) of config nodes are config false
 }
 
 var nameSeq int
@@ -114,6 +115,9 @@ func genLeaf(r *core.Rng, o Opts, name string) *SNode {
 		}
 		l.Default = &d
 	}
+	if o.LeafNonConfig && o.NonConfig && r.Chance(25) {
+		l.NonConfig = true
+	}
 	return l
 }
 
@@ -124,6 +128,9 @@ func Yang(kids []*SNode, indent string) string {
 		switch s.Kind {
 		case "leaf":
 			fmt.Fprintf(&b, "%sleaf %s { type %s;", indent, s.Name, s.Type)
+			if s.NonConfig {
+				b.WriteString(" config false;")
+			}
 			if s.Default != nil {
 				fmt.Fprintf(&b, " default \"%s\";", *s.Default)
 			}
